@@ -49,7 +49,7 @@ def decls_for(config):
 
 def make_cid(config, decls, type_name="VerifRec", check_type="VerifProto"):
     rows = harness.cid_rows(config["preset"], decls, [[name, check_type, rule] for name, rule in zip(protocol.check_names(len(config["checks"])), config["checks"])], config["header"],
-                            allowed=allowed_items(config) if config.get("allowed") else None, line_delimiter="lf", allowed_after_fields=bool(config.get("allowed_after")),
+                            allowed=allowed_items(config) if config.get("allowed") else None, line_delimiter=config.get("line_delimiter", "lf"), allowed_after_fields=bool(config.get("allowed_after")),
                             extra=[("Encoding", config["encoding"])] if config.get("encoding") else [])
     for row in rows:
         if row[0] == "F":
@@ -59,7 +59,7 @@ def make_cid(config, decls, type_name="VerifRec", check_type="VerifProto"):
 
 def data_text(config, decls, table):
     if config["preset"] == "fixed":
-        return "".join("".join(c.ljust(d["width"]) for c, d in zip(row, decls)) + "\n" for row in table)
+        return "".join("".join(c.ljust(d["width"]) for c, d in zip(row, decls)) + ("" if config.get("line_delimiter") == "none" else "\n") for row in table)
     return "".join(",".join(row) + "\n" for row in table)
 
 
@@ -252,6 +252,9 @@ def configs(tier):
                             result.append({"preset": preset, "header": header, "fields": fields, "checks": checks, "allowed": allowed, "allowed_after": True})
     for preset in ("fixed", "delimited"):
         result.append({"preset": preset, "header": 0, "fields": [(True, 4), (False, 2)], "checks": ["ok"], "allowed": False, "encoding": "utf-8"})
+    # fixed data without line delimiter behind one and two header records
+    for header in (1, 2):
+        result.append({"preset": "fixed", "header": header, "fields": [(True, 4), (False, 2)], "checks": ["ok", "veto:b"], "allowed": False, "line_delimiter": "none"})
     # every field may be empty: a row of empty cells is an accepted row that every check sees
     result.append({"preset": "delimited", "header": 1, "fields": [(True, 4), (True, 2)], "checks": ["ok", "veto:b"], "allowed": False})
     return result
@@ -357,6 +360,8 @@ if "cli" in spec:
     field_class = [c for c in fields.AbstractFieldFormat.__subclasses__() if c.__name__ == "PluginRecFieldFormat"][-1]
 else:
     interface.import_plugins(sys.argv[2])
+    import gc
+    gc.collect()  # a collection may run at any moment: imported plugins stay available all the same
     cid = interface.Cid()
     cid.read("cid.csv", spec["cid"])
     try:
